@@ -83,8 +83,9 @@ theorem invL_reach {c : Conf} (h : Reach C O st0 script picks c) : InvL C c := b
 
 theorem invS_reach {c : Conf} (h : Reach C O st0 script picks c) : InvS script c := by
   refine reach_ind (P := InvS script) ?_ (fun c _ hc => invS_step C O script c hc) c h
-  refine ⟨fun p hp => hp, ?_⟩
-  intro h; cases h
+  refine ⟨fun p hp => hp, ?_, ?_⟩
+  · intro h; cases h
+  · intro h; cases h
 
 theorem invP_reach {c : Conf} (h : Reach C O st0 script picks c) : InvP C script c := by
   refine reach_ind (P := InvP C script) ?_ ?_ c h
